@@ -21,7 +21,9 @@ RULE = ("translator: every traced function is validated on 60 random inputs per 
         "89.9, random small rotations phi for the Jacobian; InsErrorModel(with_altitude in {True, False})."
         "transform_to_output on Pva Series / Trajectory DataFrames with 8 column layouts (attitude before velocity, "
         "heading-pitch-roll order, reversed, shuffled, extra columns), roll/heading in [-360, 360], |pitch| <= 85; "
-        "a case is distinct by its rounded input")
+        "histories of 2-4 calls with equal sample count whose results are kept and re-verified after all calls; "
+        "rotation vectors also at 1e-3 (1 +- 2^-k), k = 1..52, and log-uniform in [1e-5, 1e-2] at 8 eps against a "
+        "60-digit exponential map; a case is distinct by its rounded input")
 
 EPS = 2.220446049250313e-16
 TOL = 100 * EPS            # 100x unit roundoff, scaled by the magnitude of what is compared
@@ -30,20 +32,27 @@ TOL = 100 * EPS            # 100x unit roundoff, scaled by the magnitude of what
 # --------------------------------------------------------------------------------------------
 # independent oracles
 
-def expmap_closed(v):
-    """exp([v x]) by the Rodrigues formula with cancellation-free coefficients
-    (k2 = 2 sin^2(n/2)/n^2), independent of the code's branch structure."""
-    x, y, z = (float(t) for t in v)
-    n = math.sqrt(x * x + y * y + z * z)
-    if n == 0.0:
-        return np.eye(3)
-    k1 = math.sin(n) / n
-    h = math.sin(n / 2) / n
-    k2 = 2 * h * h
-    c = math.cos(n)
-    return np.array([[k2 * x * x + c, k2 * x * y - k1 * z, k2 * x * z + k1 * y],
-                     [k2 * y * x + k1 * z, k2 * y * y + c, k2 * y * z - k1 * x],
-                     [k2 * z * x - k1 * y, k2 * z * y + k1 * x, k2 * z * z + c]])
+def expmap_exact(v):
+    """exp([v x]) from the power series of cos n, sin n / n, (1 - cos n)/n^2 in n^2 with 60-digit decimal
+    arithmetic on the exact binary64 inputs, each entry correctly rounded to binary64 at the end."""
+    from decimal import Decimal, localcontext
+    with localcontext() as ctx:
+        ctx.prec = 60
+        x, y, z = (Decimal(float(t)) for t in v)
+        n2 = x * x + y * y + z * z
+        c = k1 = k2 = Decimal(0)
+        term = Decimal(1)                     # (-n2)^k / (2k)!
+        k = 0
+        while abs(term) > Decimal(10) ** -55:
+            c += term
+            k1 += term / (2 * k + 1)
+            k2 += term / ((2 * k + 1) * (2 * k + 2))
+            k += 1
+            term = -term * n2 / ((2 * k - 1) * (2 * k))
+        m = [[k2 * x * x + c, k2 * x * y - k1 * z, k2 * x * z + k1 * y],
+             [k2 * y * x + k1 * z, k2 * y * y + c, k2 * y * z - k1 * x],
+             [k2 * z * x - k1 * y, k2 * z * y + k1 * x, k2 * z * z + c]]
+        return np.array([[float(e) for e in row] for row in m])
 
 
 def rzryrx(rph):
@@ -84,14 +93,19 @@ def check_rotvec(v, py):
                 f"at |v| = {n!r}")
     if not np.isfinite(m).all():
         return f"mat_from_rotvec ({'py_func' if py else 'compiled'}) returned non-finite entries at |v| = {n!r}"
-    want = expmap_closed(v)
-    # every entry to 500 eps absolutely (observed worst: 4 eps; just above the threshold the code's
-    # (1 - cos n)/n^2 loses ~10 digits of k2, an absolute effect of <= 1e-16 on the entries) ...
+    want = expmap_exact(v)
+    # every entry absolutely: 500 eps in general (observed worst 3.5 eps, near pi).  Around the branch threshold,
+    # |v| in [1e-5, 1e-2], both branches evaluate 1 - n^2/2 (+...) resp. cos n and tiny products: every entry is
+    # within 1 ulp(1) = 2.2e-16 of the exact value by forward error analysis (cos/sin to 1 ulp; observed worst
+    # 0.5 eps over 4e4 vectors), the k2 cancellation just above the threshold included (<= 1.1e-16 n^2/n^2):
+    # there the tolerance is 8 eps = 1.8e-15, so that a lowered series order or a jump between the branches of
+    # more than a few ulp is a counterexample.
+    abs_tol = 8 * EPS if 1e-5 <= n <= 1e-2 else 5 * TOL
     err = np.abs(m - want)
-    if (err > 5 * TOL).any():
+    if (err > abs_tol).any():
         i, j = np.unravel_index(np.argmax(err), (3, 3))
         return (f"mat_from_rotvec differs from the exponential map: entry ({i},{j}) off by {err[i, j]:.3e} "
-                f"(allowed {5 * TOL:.3e}) at |v| = {n:.6e}")
+                f"(allowed {abs_tol:.3e}) at |v| = {n:.6e}")
     # ... and the skew part (M - M^T)/2 = sin|v|/|v| [v x], which carries the small rotation itself,
     # relative to |v|
     sk = np.array([m[2, 1] - m[1, 2], m[0, 2] - m[2, 0], m[1, 0] - m[0, 1]]) / 2
@@ -216,6 +230,52 @@ def check_output(with_altitude, stacked, order, rows, phi):
     return None
 
 
+def check_history(with_altitude, stacked, batches, phi):
+    """results are VALUES: transform_to_output (and mat_from_rph / mat_to_rph / _phi_to_delta_rph) is called for a
+    sequence of inputs with the same sample count, all results are kept, and each one is verified immediately AND
+    after all the calls were made (unchanged, and its attitude block still the Euler-angle derivative at ITS rph)."""
+    from pyins import error_model, transform
+    em = error_model.InsErrorModel(with_altitude=with_altitude)
+    pcols = [6, 7, 8] if with_altitude else [4, 5, 6]
+    phi = np.array(phi, dtype=float)
+
+    def verify(res, rows, when, ib):
+        arr = np.asarray(res, dtype=float)
+        arr = arr if stacked else arr[None]
+        for i, row in enumerate(rows):
+            rph = [row['roll'], row['pitch'], row['heading']]
+            d = arr[i][6:9][:, pcols] @ phi
+            fd = fd_euler_rate(rph, phi)
+            cp = math.cos(math.radians(row['pitch']))
+            if not np.isfinite(d).all() or np.abs(fd - d).max() > 1e-6 * (1 + np.abs(fd).max()) / cp ** 2:
+                return (f"transform_to_output result of call #{ib} (row {i}, rph = {rph}) checked {when}: attitude "
+                        f"block times phi = {d.tolist()}, Euler-angle rate of Rot(-eps phi) C(rph) = {fd.tolist()}")
+        return None
+
+    kept = []
+    for ib, rows in enumerate(batches):
+        cont = _container(rows, CANON, stacked)
+        rphs = np.array([[r_['roll'], r_['pitch'], r_['heading']] for r_ in rows])
+        rphs = rphs if stacked else rphs[0]
+        mats = transform.mat_from_rph(rphs)
+        res = dict(T=em.transform_to_output(cont), C=mats, rph=transform.mat_to_rph(mats),
+                   J=error_model._phi_to_delta_rph(rphs))
+        what = verify(res['T'], rows, 'immediately', ib)
+        if what:
+            return what
+        kept.append((res, {k: np.array(v, dtype=float, copy=True) for k, v in res.items()}))
+    for ib, (res, snap) in enumerate(kept):
+        for k, nm in (('T', 'transform_to_output'), ('C', 'mat_from_rph'), ('rph', 'mat_to_rph'),
+                      ('J', '_phi_to_delta_rph')):
+            if not np.array_equal(np.asarray(res[k], dtype=float), snap[k]):
+                return (f"the result of {nm} call #{ib} of {len(kept)} (same sample count) was changed by a later "
+                        f"call: max difference {np.abs(np.asarray(res[k], dtype=float) - snap[k]).max():.3e}")
+        what = verify(res['T'], batches[ib], 'after all calls', ib)
+        if what:
+            return what
+    return None
+
+
 def check_jacobian(rph, phi):
     """_phi_to_delta_rph(rph) phi  vs  d/d eps mat_to_rph(Rot(-eps phi) C(rph)) at 0 (central differences),
     and the matrix identity  sum_k dC/d angle_k (T phi)_k = -[phi x] C."""
@@ -249,6 +309,7 @@ CHECKS = dict(rotvec=lambda o: check_rotvec(o['v'], o['py']),
               rph=lambda o: check_rph(o['rph']),
               stacked=lambda o: check_stacked(o['rphs']),
               jacobian=lambda o: check_jacobian(o['rph'], o['phi']),
+              history=lambda o: check_history(o['with_altitude'], o['stacked'], o['batches'], o['phi']),
               output=lambda o: check_output(o['with_altitude'], o['stacked'], o['order'], o['rows'], o['phi']))
 
 
@@ -279,6 +340,13 @@ def _rotvecs(rng, n):
     for a in dirs:
         for mag in mags:
             out.append(a * mag)
+    # both sides of the branch threshold: |v| = 1e-3 (1 +- 2^-k), k = 1..52, and log-uniform in [1e-5, 1e-2]
+    for a in (axes[1], np.array([1.0, -1.0, 1.0]) / math.sqrt(3), _unit(rng)):
+        for k in range(1, 53):
+            for sgn in (-1.0, 1.0):
+                out.append(a * (1e-3 * (1 + sgn * 2.0 ** -k)))
+    for _ in range(max(40, n // 3)):
+        out.append(_unit(rng) * 10 ** rng.uniform(-5, -2))
     k = n // 3
     for _ in range(k):                               # dense around |v| = 1e-3 (|v|^2 = 1e-6)
         u = _unit(rng)
@@ -368,6 +436,15 @@ def numeric_statements(r, n):
                     dist['output'] = dist.get('output', 0) + 1
                     run('output', dict(with_altitude=with_altitude, stacked=stacked, order=list(order),
                                        rows=rows, phi=phi), (rep_i, li, with_altitude, stacked))
+    for rep_i in range(reps):
+        for with_altitude in (True, False):
+            for stacked in (False, True):
+                nb = rng.randint(2, 4)
+                batches = [[_pva_row(rng) for _ in range(3 if stacked else 1)] for _ in range(nb)]
+                phi = [rng.uniform(-1, 1) for _ in range(3)]
+                dist['history'] = dist.get('history', 0) + 1
+                run('history', dict(with_altitude=with_altitude, stacked=stacked, batches=batches, phi=phi),
+                    (rep_i, with_altitude, stacked))
     r.coverage.setdefault('distribution', {}).update(dist)
     return fails
 
@@ -428,7 +505,7 @@ def replay(obj):
             print("implementation:\n", m)
         except Exception as e:
             print(f"implementation raised {type(e).__name__}: {e}")
-        print("exponential map (closed form):\n", expmap_closed(rep['v']))
+        print("exponential map (60-digit series, rounded):\n", expmap_exact(rep['v']))
     elif kind == 'rph':
         from pyins import transform
         m = transform.mat_from_rph(rep['rph'])
